@@ -67,7 +67,7 @@ def gen_case(seed, idx):
         opts["show_proc_parent"] = rng.random() < 0.3
     if rng.random() < 0.3:
         opts["max_frontpage_items"] = rng.randint(1, 4)
-    case = {"world": w, "options": opts, "layout": lay, "exclude": rng.random() < 0.3, "pages": rng.random() < 0.35 and lay == "normal",
+    case = {"world": w, "options": opts, "layout": lay, "exclude": rng.random() < 0.3, "two_includes": rng.random() < 0.3, "pages": rng.random() < 0.35 and lay == "normal",
             "media": rng.random() < 0.25 and lay == "normal", "extra_ft": rng.random() < 0.2, "idx": idx}
     return case
 
@@ -100,6 +100,13 @@ def build_files(case, seed):
         base = "p/src/" if lay == "normal" else "p/"
         files[base + "skipme.f90"] = "module skipme\n  !! excluded by the project file\nend module skipme\n"
         opts["exclude"] = ("src/" if lay == "normal" else "") + "skipme.f90"
+    if case.get("two_includes"):
+        # two include directories both provide params.inc: the documented search order decides
+        opts["include"] = ["./inc_a", "./inc_b"]
+        files["p/inc_a/params.inc"] = "integer, parameter :: inc_from_a = 1 !! from a\n"
+        files["p/inc_b/params.inc"] = "integer, parameter :: inc_from_b = 2 !! from b\n"
+        base = "p/src/" if lay == "normal" else "p/"
+        files[base + "uses_inc.f90"] = "module uses_inc\n  !! includes a file found in two include dirs\n  implicit none\n  include \"params.inc\"\nend module uses_inc\n"
     if case.get("extra_ft"):
         opts["extra_filetypes"] = "inc !"
         base = "p/src/" if lay == "normal" else "p/"
@@ -428,7 +435,7 @@ def case_candidates(case):
         c["world"] = w
         if w["mods"]:
             yield desc, c
-    for k in ("pages", "media", "extra_ft", "exclude"):
+    for k in ("pages", "media", "extra_ft", "exclude", "two_includes"):
         if case.get(k):
             c = copy.deepcopy(case)
             c[k] = False
